@@ -18,7 +18,11 @@ from ..oglib import enc, frac
 RULE = ('spinless: optimized L=1..8, explicit L=4..8 (+ L=0..3: the documented assertion); spin-orbital: optimized L=1..6, explicit L=2..6 (+ L=1) (few cases for the largest sizes); '
         'coefficient tensors over {0, +-1, 1/2, -5/4, 2, ...}: dense, sparse, single entry, symmetric / hermitian-structured, zero-padded last orbital, one-body only, '
         'two-body only, all ones, all zero; complex tensors by linearity (chain lists and explicit graphs are value-independent in structure, affine in the coefficients). '
-        'non-trivial = constructor returns an MPO; distinct = distinct (model, optimize, L, tensor kind, bond dimensions, #nodes, #edges)')
+        'non-trivial = constructor returns an MPO; distinct = distinct (model, optimize, L, tensor kind, bond dimensions, #nodes, #edges). '
+        'Stream "dense-matrix (numeric, property oracle)": the search oracle (both build paths, as_matrix in both formats vs own second-quantised reference) evaluated always on small inputs. '
+        'Stream "gauge-transform (numeric, not modelled)": NOT a model comparison -- molecular_hamiltonian_orbital_gauge_transform is not modelled; an always-on numerical test '
+        '(tolerance 1e-10 * scale) that v_l, v_r map the explicit MPO of the original coefficients to the explicit MPO of the rotated ones, complex coefficient tensors and complex 2x2 unitaries: '
+        'quick L=7 every pair i, L=8 i=5, one random (L, i) with L in 4..6 per shard; thorough L=4..8 every pair i, three unitaries each')
 
 KINDS = ['dense', 'dense', 'sparse', 'single', 'symmetric', 'padded', 'one-body', 'two-body', 'ones', 'zero']
 
@@ -180,6 +184,52 @@ def plan(tier):
     return out
 
 
+
+def gauge_inputs(seed_spec, L, cplx=True):
+    """coefficient tensors of a gauge case, reproducible from the seed specification"""
+    rng = np.random.default_rng(list(seed_spec))
+    t, v = gen_tensors(rng, L, 'dense', real_draw(rng, cplx))
+    return t, v
+
+
+def gauge_case(seed_spec, L, i, u, cplx=True):
+    t, v = gauge_inputs(seed_spec, L, cplx)
+    pt, pv = pack(t, v)
+    u = np.asarray(u, dtype=complex)
+    return {'model': 'mol', 'clause': 'gauge', 'L': L, 'kind': 'dense', 'complex': cplx, 'tkin': pt, 'vint': pv, 'i': int(i),
+            'u': np.stack([u.real, u.imag], axis=-1).tolist(), 'complex_u': bool(np.any(u.imag != 0)), 'seed_spec': [int(x) for x in seed_spec]}
+
+
+def gauge_plan(tier, shard, nshards, rng):
+    """(L, i, unitary kind) of the always-on numerical gauge test"""
+    jobs = []
+    if tier == 'thorough':
+        for L in range(4, 9):
+            for i in range(L - 1):
+                for uk in ('complex', 'complex', 'real'):
+                    jobs.append((L, i, uk))
+    else:
+        jobs += [(7, i, 'complex') for i in range(6)] + [(8, 5, 'complex')]
+    jobs = [j for k, j in enumerate(jobs) if k % nshards == shard]
+    if tier != 'thorough':
+        L = int(rng.integers(4, 7))
+        jobs.append((L, int(rng.integers(0, L - 1)), str(rng.choice(['complex', 'real', 'swap']))))
+    return jobs
+
+
+def gauge_stream(c, tier, shard, nshards, seed):
+    rng = np.random.default_rng([seed, shard, 77])
+    for k, (L, i, uk) in enumerate(gauge_plan(tier, shard, nshards, rng)):
+        spec = [seed, shard, 770 + k]
+        u = rand_unitary(rng, uk)
+        case = gauge_case(spec, L, i, u)
+        r = run_gauge(case)
+        op = {'op': 'gauge (numeric, not modelled)', 'L': L, 'i': i, 'u_kind': uk, 'u': case['u'], 'seed_spec': spec}
+        c.add(op, {'ok': True, 'gauge_ok': r is None, 'observed': r}, {'ok': True, 'gauge_ok': True, 'observed': None},
+              cls=('gauge', L, i, uk), branches=[f'gauge:L={L}', 'u:' + uk,
+                                               'right-pair-block' if (L // 2 + 1 <= i <= L - 3) else 'other-blocks'])
+
+
 def _corr_shard(name, shard, nshards, tier, seed):
     c = Corr(name)
     rng = np.random.default_rng([seed, shard, 7])
@@ -188,6 +238,27 @@ def _corr_shard(name, shard, nshards, tier, seed):
         for r in range(reps):
             jobs.append((m, o, L, r))
     jobs = [j for k, j in enumerate(jobs) if k % nshards == shard]
+    if name.startswith('gauge-transform'):
+        gauge_stream(c, tier, shard, nshards, seed)
+        return c
+    if name.startswith('dense-matrix'):
+        rng = np.random.default_rng([seed, shard, 78])
+        cases = []
+        for model, Ls in (('mol', (1, 2, 3, 4, 5)), ('spinmol', (1, 2, 3))):
+            for L in Ls:
+                for cplx in (False, True):
+                    cases.append((model, L, cplx))
+        cases = [cs for k, cs in enumerate(cases) if k % nshards == shard]
+        for k, (model, L, cplx) in enumerate(cases):
+            spec = [seed, shard, 780 + k]
+            t, v = gen_tensors(np.random.default_rng(spec), L, 'dense', real_draw(np.random.default_rng(spec + [1]), cplx))
+            pt, pv = pack(t, v)
+            case = {'model': model, 'L': L, 'kind': 'dense', 'complex': cplx, 'tkin': pt, 'vint': pv, 'both_formats': True}
+            r = run_case(case)
+            c.add({'op': 'oracle (numeric)', 'model': model, 'L': L, 'complex': cplx, 'seed_spec': spec},
+                  {'ok': True, 'oracle_ok': r is None, 'observed': r}, {'ok': True, 'oracle_ok': True, 'observed': None},
+                  cls=('oracle', model, L, cplx), branches=['oracle:' + model])
+        return c
     if name == 'molecular':
         ops = []
         for m, o, L, r in jobs:
@@ -205,7 +276,10 @@ def _corr_shard(name, shard, nshards, tier, seed):
 
 
 def correspondence(tier, seed):
-    return [common.parallel_shards(_corr_shard, name, tier, seed) for name in ('molecular', 'molecular.complex')]
+    out = [common.parallel_shards(_corr_shard, name, tier, seed)
+           for name in ('molecular', 'molecular.complex', 'dense-matrix (numeric, property oracle)', 'gauge-transform (numeric, not modelled)')]
+    out[-1].notes.append('numerical test of the un-modelled gauge transform against the explicit MPO of the rotated coefficients; not a model comparison')
+    return out
 
 
 # ----------------------------------------------------------------------------- oracle (property text; used only after a break)
@@ -350,6 +424,10 @@ def run_case(case):
         if r:
             return f'optimize={optimize}: tensors are not block sparse under qd/qD: ' + r
         mats[optimize] = dense_of(mpo, n > 6)
+        if case.get('both_formats'):
+            other = dense_of(mpo, not (n > 6))
+            if other.shape != mats[optimize].shape or float(np.max(np.abs(other - mats[optimize]))) > 1e-10 * max(1.0, float(np.max(np.abs(other)))):
+                return f'optimize={optimize}: as_matrix() and as_matrix(sparse_format=True) differ'
         if small:
             err = float(np.max(np.abs(mats[optimize] - ref)))
             if err > 1e-10 * max(1.0, float(np.max(np.abs(ref)))):
@@ -384,14 +462,14 @@ def gen_case(rng, big=False):
     return {'model': 'spinmol' if spin else 'mol', 'L': L, 'kind': kind, 'complex': cplx, 'tkin': pt, 'vint': pv}
 
 
-def gen_gauge_cases(rng, L=None):
-    L = int(rng.choice([4, 5, 6])) if L is None else L
+def gen_gauge_cases(rng, L=None, force_complex=False):
+    L = int(rng.choice([4, 5, 6, 7, 7, 8])) if L is None else L
     cplx = bool(rng.integers(0, 2))
     kind = str(rng.choice(['dense', 'dense', 'sparse', 'symmetric']))
     t, v = gen_tensors(rng, L, kind, real_draw(rng, cplx))
     pt, pv = pack(t, v)
     for i in range(L - 1):
-        uk = str(rng.choice(['complex', 'complex', 'real', 'swap', 'identity']))
+        uk = 'complex' if force_complex else str(rng.choice(['complex', 'complex', 'complex', 'real', 'swap', 'identity']))
         u = rand_unitary(rng, uk)
         yield {'model': 'mol', 'clause': 'gauge', 'L': L, 'kind': kind, 'complex': cplx, 'tkin': pt, 'vint': pv, 'i': i,
                'u': np.stack([np.asarray(u, dtype=complex).real, np.asarray(u, dtype=complex).imag], axis=-1).tolist(),
@@ -399,6 +477,14 @@ def gen_gauge_cases(rng, L=None):
 
 
 def case_of_op(op):
+    if op.get('op') == 'oracle (numeric)':
+        spec = op['seed_spec']
+        t, v = gen_tensors(np.random.default_rng(spec), op['L'], 'dense', real_draw(np.random.default_rng(spec + [1]), op['complex']))
+        pt, pv = pack(t, v)
+        return {'model': op['model'], 'L': op['L'], 'kind': 'dense', 'complex': op['complex'], 'tkin': pt, 'vint': pv, 'both_formats': True}
+    if str(op.get('op', '')).startswith('gauge'):
+        u = np.array(op['u'], dtype=float)
+        return gauge_case(op['seed_spec'], op['L'], op['i'], u[..., 0] + 1j * u[..., 1])
     if op.get('model') not in ('mol', 'spinmol'):
         return None
     if op.get('complex'):
@@ -446,8 +532,9 @@ def search(tier, seed, hints, budget_s):
             t, v = gen_tensors(rng, L, 'dense', real_draw(rng, L % 2 == 1))
             pt, pv = pack(t, v)
             yield {'model': 'spinmol', 'L': L, 'kind': 'dense', 'complex': L % 2 == 1, 'tkin': pt, 'vint': pv}
-        for L in (4, 5, 6):
-            yield from gen_gauge_cases(rng, L)
+        for L in (4, 5, 6, 7):
+            yield from gen_gauge_cases(rng, L, force_complex=True)
+        yield from (cs for cs in gen_gauge_cases(rng, 8, force_complex=True) if cs['i'] in (4, 5, 6))
         for L in (5, 6):
             t, v = gen_tensors(rng, L, 'dense', real_draw(rng, False))
             pt, pv = pack(t, v)
